@@ -1,6 +1,10 @@
 import ModbusModel.Lemmas.RoundTripRsp
 import ModbusModel.Lemmas.Tcp
 import ModbusModel.Model.Client
+import ModbusModel.Props.C04
+import ModbusModel.Props.C05
+import ModbusModel.Props.C11
+import ModbusModel.Lemmas.ClientFraming
 /-
   C02 – Responses and exceptions reach the caller exactly as the service produced them.
 -/
@@ -77,5 +81,104 @@ example : decodeResponse (encodeResponsePdu (.readCoils [true, false, true]))
     = .ok (.readCoils [true, false, true, false, false, false, false, false]) := by decide +kernel
 example : decodeResponsePdu (encodeExceptionPdu ⟨.custom 8, .custom 1⟩)
     = .ok (.error ⟨.diagnostics, .illegalFunction⟩) := by decide
+
+/-- **the reply reaches the caller** (TCP, every fragmentation): the server's response to the
+    request, framed under the request's transaction and unit id and cut into reads in any way,
+    is returned by the call as `Ok(response)` (bits padded to whole bytes) -/
+theorem response_reaches_caller_tcp (c : Client) (req : Request) (t : Transport) (r : Response) (tail frame : Bytes)
+    (hk : c.kind = .tcp)
+    (hr : Ready c t (tcpFrame ⟨c.nextTid, c.unit⟩ (encodeResponsePdu r) ++ tail))
+    (hs : responsePduSizeRaw r ≤ 253) (hc : r.canonical) (hfc : r.functionCode.value < 0x80)
+    (hmatch : r.functionCode.value = req.functionCode.value)
+    (henc : clientEncode .tcp (stampedHdr c) req = .ok frame) :
+    ∃ c' t', c.call req t none = (.done (.ok (pad8 r)), c', t', [.write frame]) := by
+  have hl : (encodeResponsePdu r).length < 65535 := by rw [encodeResponsePdu_length]; omega
+  have hd : decodeResponsePdu (encodeResponsePdu r) = .ok (.ok (pad8 r)) := rsp_pdu_roundtrip r hs hc hfc
+  have hfne : frame ≠ [] := by
+    have := (Modbus.Props.C05.tcp_emit_request _ req frame henc).1
+    rw [this]; simp [tcpFrame, be16]
+  obtain ⟨c', t', h, _⟩ := call_generic tcpClientFraming c req t _ tail frame hk hr
+    ⟨_, _, _, hl, hd, rfl⟩ (by simp [tcpFrame, be16]) henc hfne
+  refine ⟨c', t', ?_⟩
+  rw [h, tcpClientFraming_item _ _ _ hl hd]
+  simp [stampedHdr, hk, classify, pad8_functionCode, hmatch]
+
+/-- **the exception reaches the caller** (TCP, every fragmentation) as inner error with the
+    same numeric code -/
+theorem exception_reaches_caller_tcp (c : Client) (req : Request) (t : Transport) (fc : FunctionCode)
+    (e : ExceptionCode) (tail frame : Bytes) (hk : c.kind = .tcp)
+    (hr : Ready c t (tcpFrame ⟨c.nextTid, c.unit⟩ (encodeExceptionPdu { function := fc, exception := e }) ++ tail))
+    (hfc : fc.value < 0x80) (hmatch : fc.value = req.functionCode.value)
+    (henc : clientEncode .tcp (stampedHdr c) req = .ok frame) :
+    ∃ c' t' e', c.call req t none = (.done (.exception e'), c', t', [.write frame]) ∧ e'.value = e.value := by
+  obtain ⟨fc', e', hd, hv1, hv2⟩ := decodeResponsePdu_exception fc e hfc
+  have hl : (encodeExceptionPdu { function := fc, exception := e }).length < 65535 := by simp [encodeExceptionPdu]
+  have hfne : frame ≠ [] := by
+    have := (Modbus.Props.C05.tcp_emit_request _ req frame henc).1
+    rw [this]; simp [tcpFrame, be16]
+  obtain ⟨c', t', h, _⟩ := call_generic tcpClientFraming c req t _ tail frame hk hr
+    ⟨_, _, _, hl, hd, rfl⟩ (by simp [tcpFrame, be16]) henc hfne
+  refine ⟨c', t', e', ?_, hv2⟩
+  rw [h, tcpClientFraming_item _ _ _ hl hd]
+  simp [stampedHdr, hk, classify, hv1, hmatch]
+
+/-- **the reply reaches the caller** (RTU, every fragmentation), for every typed response -/
+theorem response_reaches_caller_rtu (c : Client) (req : Request) (t : Transport) (r : Response) (tail frame : Bytes)
+    (hk : c.kind = .rtu)
+    (hr : Ready c t (rtuFrame c.unit (encodeResponsePdu r) ++ tail))
+    (hs : responsePduSizeRaw r ≤ 253) (ht : ∀ fc d, r ≠ .custom fc d) (hfc : r.functionCode.value < 0x80)
+    (hmatch : r.functionCode.value = req.functionCode.value)
+    (henc : clientEncode .rtu (stampedHdr c) req = .ok frame) :
+    ∃ c' t', c.call req t none = (.done (.ok (pad8 r)), c', t', [.write frame]) := by
+  have hc : r.canonical := by cases r <;> first | trivial | exact absurd rfl (ht _ _)
+  have hd : decodeResponsePdu (encodeResponsePdu r) = .ok (.ok (pad8 r)) := rsp_pdu_roundtrip r hs hc hfc
+  have hlen : ∀ rest, responsePduLen (rtuFrame c.unit (encodeResponsePdu r) ++ rest)
+      = .ok (some (encodeResponsePdu r).length) := by
+    intro rest
+    have := Modbus.Props.C11.response_table_agrees c.unit r rest hs ht
+    simpa [rtuFrame, List.append_assoc] using this
+  have hfne : frame ≠ [] := by
+    have := Modbus.Props.C04.rtu_emit_request _ req frame henc
+    rw [this]; simp
+  obtain ⟨c', t', h, _⟩ := call_generic rtuClientFraming c req t _ tail frame hk hr
+    ⟨_, _, _, rfl, hlen, hd⟩ (by simp [rtuFrame]) henc hfne
+  refine ⟨c', t', ?_⟩
+  rw [h, rtuClientFraming_item _ _ _ hlen hd]
+  simp [stampedHdr, hk, classify, pad8_functionCode, hmatch]
+
+/-- **the exception reaches the caller** (RTU, every fragmentation) -/
+theorem exception_reaches_caller_rtu (c : Client) (req : Request) (t : Transport) (fc : FunctionCode)
+    (e : ExceptionCode) (tail frame : Bytes) (hk : c.kind = .rtu)
+    (hr : Ready c t (rtuFrame c.unit (encodeExceptionPdu { function := fc, exception := e }) ++ tail))
+    (h1 : 1 ≤ fc.value) (h2 : fc.value ≤ 0x2B) (hmatch : fc.value = req.functionCode.value)
+    (henc : clientEncode .rtu (stampedHdr c) req = .ok frame) :
+    ∃ c' t' e', c.call req t none = (.done (.exception e'), c', t', [.write frame]) ∧ e'.value = e.value := by
+  have hfc : fc.value < 0x80 := by
+    have : ∀ v : UInt8, v ≤ 0x2B → v < 0x80 := by apply forall_u8; decide +kernel
+    exact this _ h2
+  obtain ⟨fc', e', hd, hv1, hv2⟩ := decodeResponsePdu_exception fc e hfc
+  have hlen : ∀ rest, responsePduLen (rtuFrame c.unit (encodeExceptionPdu { function := fc, exception := e }) ++ rest)
+      = .ok (some (encodeExceptionPdu { function := fc, exception := e }).length) := by
+    intro rest
+    have := Modbus.Props.C11.exception_table_agrees c.unit fc.value e.value rest h1 h2
+    simpa [rtuFrame, encodeExceptionPdu, List.append_assoc] using this
+  have hfne : frame ≠ [] := by
+    have := Modbus.Props.C04.rtu_emit_request _ req frame henc
+    rw [this]; simp
+  obtain ⟨c', t', h, _⟩ := call_generic rtuClientFraming c req t _ tail frame hk hr
+    ⟨_, _, _, rfl, hlen, hd⟩ (by simp [rtuFrame]) henc hfne
+  refine ⟨c', t', e', ?_, hv2⟩
+  rw [h, rtuClientFraming_item _ _ _ hlen hd]
+  simp [stampedHdr, hk, classify, hv1, hmatch]
+
+-- non-vacuity: a reply cut in two with a `Pending` in between, and the premises of
+-- `response_reaches_caller_tcp` for it
+example :
+    ((Client.attach .tcp).call (.readHoldingRegisters 0 1)
+      { reads := [.data [0, 0, 0, 0, 0], .pending, .data [5, 255, 3, 2, 0x12, 0x34]] } none).1
+      = .done (.ok (.readHoldingRegisters [0x1234])) := by decide +kernel
+example : Ready (Client.attach .tcp) { reads := [.data [0, 0, 0, 0, 0], .pending, .data [5, 255, 3, 2, 0x12, 0x34]] }
+    (tcpFrame ⟨0, 255⟩ (encodeResponsePdu (.readHoldingRegisters [0x1234])) ++ []) :=
+  ⟨⟨{}, rfl, rfl, rfl, rfl⟩, rfl, rfl, by decide, by decide⟩
 
 end Modbus.Props.C02
